@@ -97,6 +97,15 @@ func families(quick bool) []family {
 		fs = append(fs, family{name: "table", config: d, alpha: pairAlphabet(keys, subs, incs, d), maxLen: pick(3, 4), ordered: true,
 			runAt: one(func(s []string, cp checkAt) result { return runTableAt(d, s, cp) })})
 	}
+	// spellings of decimal integers: zero-padded, signed, at and beyond the
+	// int64 limits (every [+-]?digits string is a base-10 integer; S1/S4)
+	spell := []string{"", "010", "08", "09", "-007", "+009", "00", "-0", "+0", "0000000000000000000001", "9223372036854775808", "-9223372036854775808", "-9223372036854775809", "0100"}
+	one2 := []string{"a"}
+	fs = append(fs,
+		family{name: "counter", config: "increment-spellings", alpha: counterAlphabet(spell), maxLen: 2, ordered: true, runAt: one(runCounterAt)},
+		family{name: "subkey", config: "increment-spellings", alpha: pairAlphabet(one2, []string{"x", "y"}, spell, "\x00"), maxLen: 2, ordered: true, runAt: one(runSubKeyAt)},
+		family{name: "table", config: "increment-spellings", alpha: pairAlphabet(one2, []string{"x", "y"}, spell, "\x00"), maxLen: 2, ordered: true,
+			runAt: one(func(s []string, cp checkAt) result { return runTableAt("\x00", s, cp) })})
 	for i := range accPrograms {
 		p := &accPrograms[i]
 		fs = append(fs, family{name: "accum", config: p.name, alpha: p.alphabet, maxLen: pick(4, 5), ordered: true,
@@ -646,7 +655,7 @@ func main() {
 			}
 			return "real MatchCounter / SubKeyCounter / TableAggregator (delimiters NUL and '::') / AccumulatingGroup (3 programs: sumi without groups; 1 group with sumi, count, maxi, a column reference, a forward column reference, last value and concatenation; 2 groups) / MatchNumerical (keep, keep+reverse, no-keep): EVERY sample sequence of length 0.." +
 				pick("4 (counter), 3 (sub-key, table), 4 (accumulator), 5 (numerical)", "5 (counter), 4 (sub-key, table), 5 (accumulator), 6 (numerical)") +
-				" over keys {a,b,''} x sub-keys/rows {absent,x,y,''} x increments {absent,2,-1,0,zz,MaxInt64}" +
+				" over keys {a,b,''} x sub-keys/rows {absent,x,y,''} x increments {absent,2,-1,0,zz,MaxInt64}, plus histories of up to 2 samples over 13 spellings of decimal integers (zero-padded, signed, 22 digits with leading zeros, MaxInt64+1, MinInt64, MinInt64-1)" +
 				", numerical symbols " + pick("{0,1,2,-3,2.5,x}", "{0,1,2,-3,2.5,x,1e9,''}") +
 				" and, with keep and no-keep, length 0.." + pick("4", "6") + " over the large-magnitude symbols {1e9+4,1e9+7,1e9+13,1e9+16,1e15,1e15+1,-1e12-3,1} (unit-size spread at huge magnitude, identical huge values by repetition; reference moments computed exactly with rationals; tolerance 1e-9 relative + 1e-12 of the largest |sample|)" +
 				"; each sequence is applied to a fresh object and every public accessor is compared with an independent fold after every prefix; sequences are enumerated as all distinct permutations of every multiset and the accessor states of all permutations are compared (order independence). Trim: every table on grids up to 2x3" + pick("", " and 3x2") + " with cells in {absent," + pick("2,-1", "2,-1,0") +
